@@ -28,6 +28,12 @@ CLAIMED = {
  "C05": dict(technique="SSA ordering/dominance (wait outcome honoured up to KeyGen, reveal after successful commitment wait), linear normal forms of wait thresholds, same-key comparison provenance, first-value-wins guards, sibling cross-check of BLS and PS",
              text="Sound static decision of structural necessary conditions of DKG robustness for the built-in BLS and PS backends: expiry reported and honoured, reveal only after all commitments, thresholds n-1/n-1/n, commitment and t-subset cross-checks dominate success, commit/reveal broadcast-class on both sides, first value per peer wins, PS vector lengths validated. Algebraic usability of the shares is not decided.",
              design="§4 C05"),
+ "C11": dict(technique="SSA all-exits path search with the Synchronize continuation axiom, select-arm analysis, wait-outcome propagation, must-lockset for the monitor, reachability audit of explicit panics against a frozen reason table",
+             text="Sound static decision of structural necessary conditions of clean failure: every continuation path reports on the buffered result channel, the API blocks only in a select with a ctx.Done() arm returning an error, BLS/PS waits report expiry and are honoured, the context monitor is armed and signals under the lock, every explicit panic reachable from KeyGen/Sign has a recorded reason, adapter loops watch ctx.Done(). Promptness, tss-lib internals and goroutine leaks are not decided.",
+             design="§4 C11"),
+ "C12": dict(technique="SSA register/release pairing on all exits (same table, same key root through parameters and captured cells, deferred calls, continuation axiom), critical-section identity from must-locksets, found-arm guards, who-may-write table for Scheme fields",
+             text="Sound static decision of structural necessary conditions of residue freedom: every registration into the handler tables / dkgRunning is released on all exits of the registering function or by a deferred release armed in the API entry; refuse-and-insert is one exclusive critical section; dispatch only on the found arm; no per-session state stored in Scheme fields. Registrations by a continuation that outlives the API call are a documented limitation.",
+             design="§4 C12"),
 }
 NOT_APPLICABLE = {
  "C08": "completeness of blind/sign/unblind/PoK is an algebraic identity over runtime group elements; no clause is visible in the shape of the code (DESIGN.md §4 C08)",
